@@ -293,7 +293,7 @@ func (e *Engine) fieldKey(structT types.Type, i int) (key, sort string) {
 
 func (e *Engine) boxKey(t types.Type) (key, sort string) {
 	es := e.tm.SortOf(t)
-	key = "Box|" + es + "|" + valKindOf(t)
+	key = "Box|" + elemKeyName(t) // one box array per Go type: typed-heap axioms are per type
 	sort = ArraySort(SInt, es)
 	if _, ok := e.heapValKind[key]; !ok {
 		e.heapValKind[key] = valKindOf(t)
